@@ -26,7 +26,7 @@ def run(ctx):
         r_ops, w_ops = cachesys.gen_workload(ctx.rng, nmetrics=3, nts=2, nstores=min(8, mx + 4), ndrains=ctx.pick(2, 3),
                                              nqueries=0, ticks=(st == 'timesorted'))
         cfg = dict(strategy=st, max=mx, flow=flow, lag=0)
-        expl.append((cfg, r_ops, w_ops, ctx.pick(1, 2), ctx.pick(30, 200), ctx.pick(120, 2500)))
+        expl.append((cfg, r_ops, w_ops, ctx.pick(1, 2), ctx.pick(30, 100), ctx.pick(120, 800)))
   # de-duplicate identical model configurations
   seen, m2 = set(), []
   for m in models:
